@@ -116,6 +116,8 @@ pub enum Ev {
   BuStart,
   BuScheduled,
   BuEnd,
+  /// A bottom-up build that received its report was dropped without being run.
+  BuDropped,
   ExecStart { t: Tid, n: u32, bottom_up: bool },
   ExecEnd { t: Tid, n: u32, out: Out },
   OpStart { t: Tid, n: u32, pos: u32, op: OpK, target: Target },
